@@ -10,8 +10,7 @@ ASSUMPTIONS = {
     "A4": "A4 vstd HashMap model with obeys_key_model::<String>() (string_keys_ok())",
     "A5": "A5 quick_xml event model: Reader::read_event_into pops the head of a finite ghost sequence rd_pending(reader) of abstract events / errors and yields Eof forever afterwards; BytesStart::name/attributes, Attributes::next, BytesText/CData::into_inner, Reader::buffer_position are tied to the same ghost values; how bytes become events is quick_xml's business and is NOT verified",
     "A6": "A6 trusted leaves of the repository (external_body, contract assumed, body is one std call Verus cannot specify): parser::to_str, Element::new, Element::get_child, Element::get_child_mut, Element::remove_child, Element::merge_attr (assume_specification: attributes become spec_merge(old, arg), nothing else changes)",
-    "A7": "A7 machine arithmetic: the u32 occurrence counter does not overflow (see DESIGN.md 6-D5)",
-    "A8": "A8 renderer frame: to_serde_struct is an unverified deterministic function of the tree (the contracts stop at the Element tree; the rendered text is outside the verifier)",
+        "A8": "A8 renderer frame: to_serde_struct is an unverified deterministic function of the tree (the contracts stop at the Element tree; the rendered text is outside the verifier)",
     "V": "Verus 0.2026.09.13 + Z3 are trusted; vstd's specifications of Vec, Option, Result, HashMap, slice iterators, String::clone are trusted; termination of spec functions is checked by Verus",
     "H": "'unique for all operation sequences' / 'for all histories of extend' is the induction over the per-operation contracts (constructor establishes, every operation preserves); that induction step is the standard meta-argument and is not itself machine-checked",
 }
@@ -27,18 +26,18 @@ PROPS = {
         "assumes": ["A1", "A2", "A3", "A6", "H", "V"],
         "claim": "tree half: every public construction operation preserves unique child names (also deeply), add-existing is a no-op, mark-optional preserves the subtree, lookup/removal contracts are assumed leaves (A6); the rendering sentence of C16 is not covered",
     },
-    "C03": {"units": ALL_PARSER, "assumes": ["A1", "A2", "A3", "A4", "A5", "A6", "A7", "A8", "V"],
+    "C03": {"units": ALL_PARSER, "assumes": ["A1", "A2", "A3", "A4", "A5", "A6", "A8", "V"],
             "claim": "the tree returned by the parser is exactly g_build (the inference algorithm as a spec function) of the abstract event stream (T1)"},
-    "C05": {"units": ALL_PARSER, "assumes": ["A1", "A2", "A3", "A4", "A5", "A6", "A7", "A8", "V"],
+    "C05": {"units": ALL_PARSER, "assumes": ["A1", "A2", "A3", "A4", "A5", "A6", "A8", "V"],
             "claim": "parser half: the returned tree including internal child order is a spec function of (tree, event sequence); vstd leaves HashMap iteration order unconstrained, so the proof exists only if that order cannot influence the result"},
-    "C07": {"units": ALL_PARSER, "assumes": ["A1", "A2", "A3", "A4", "A5", "A6", "A7", "V"],
+    "C07": {"units": ALL_PARSER, "assumes": ["A1", "A2", "A3", "A4", "A5", "A6", "V"],
             "claim": "no arithmetic overflow, out-of-bounds access or failing unwrap, and termination (decreases) of every function under contract, for all event streams"},
-    "C08": {"units": ALL_PARSER, "assumes": ["A1", "A2", "A3", "A4", "A5", "A6", "A7", "V"],
+    "C08": {"units": ALL_PARSER, "assumes": ["A1", "A2", "A3", "A4", "A5", "A6", "V"],
             "claim": "Ok/Err verdict of the parser equals the independent stream-order oracle scan() over the same events"},
-    "C01": {"units": ALL_PARSER, "assumes": ["A1", "A2", "A3", "A4", "A5", "A6", "A7", "A8", "V"], "claim": ""},
-    "C06": {"units": ALL_PARSER, "assumes": ["A1", "A2", "A3", "A4", "A5", "A6", "A7", "A8", "H", "V"], "claim": ""},
-    "C09": {"units": ALL_PARSER, "assumes": ["A1", "A2", "A3", "A4", "A5", "A6", "A7", "A8", "V"], "claim": ""},
-    "C11": {"units": ALL_PARSER, "assumes": ["A1", "A2", "A3", "A4", "A5", "A6", "A7", "A8", "V"], "claim": ""},
+    "C01": {"units": ALL_PARSER, "assumes": ["A1", "A2", "A3", "A4", "A5", "A6", "A8", "V"], "claim": ""},
+    "C06": {"units": ALL_PARSER, "assumes": ["A1", "A2", "A3", "A4", "A5", "A6", "A8", "H", "V"], "claim": ""},
+    "C09": {"units": ALL_PARSER, "assumes": ["A1", "A2", "A3", "A4", "A5", "A6", "A8", "V"], "claim": ""},
+    "C11": {"units": ALL_PARSER, "assumes": ["A1", "A2", "A3", "A4", "A5", "A6", "A8", "V"], "claim": ""},
 }
 
 # messages of obligations that Verus generates by itself (no contract clause to tag): panic freedom / termination
